@@ -342,7 +342,7 @@ def splitters(tier):
     out.append(pallet_split(iat=[0, 1], slow=True))
     for ek in ("cconvA", "sconvA", "fleet"):
         for pol in ("FIRST_AVAILABLE", "ROUND_ROBIN"):
-            c = pallet_split(in_pol=pol, n_in=2, n_out=1, slow=False, until=20)
+            c = pallet_split(in_pol=pol, n_in=2, n_out=1, slow=False, until=24, n=6)
             c["edges"] = [EDGE_KINDS[ek](e["id"], e["src"], e["dst"], 2) if e["id"] == "P1" else e for e in c["edges"]]
             c["tag"] = c["tag"][:-1] + ",P1=%s)" % ek
             out.append(c)
@@ -468,9 +468,34 @@ def fleet_dense(tier):
     return out
 
 
+def mixed_out(first="buf", n_fleet=1, wc=2, until=16):
+    """blocking FIRST_AVAILABLE machine, several workers finishing together, a small fleet among its out-edges but not the first:
+    the winner of the first edge withdraws its granted reservation on the fleet, the loser must get that place at once"""
+    nodes = [src("S%d" % i, n=4, iat=[1, 2]) for i in range(wc)] + [mach("M", wc=wc, blocking=True, pd=[1, 2])]
+    edges = [buf("I%d" % i, "S%d" % i, "M", cap=1) for i in range(wc)]
+    k = 0
+    if first == "buf":
+        nodes += [mach("D", pd=[6, 5]), sink("K0")]
+        edges += [buf("O0", "M", "D", cap=1), buf("Z", "D", "K0", cap=1)]
+        k = 1
+    for j in range(n_fleet):
+        nodes.append(sink("K%d" % (k + j)))
+        edges.append(edge("fleet", "O%d" % (k + j), "M", "K%d" % (k + j), cap=1, delay=1, transit=0.5))
+    if first != "buf":
+        nodes += [sink("KB")]
+        edges += [buf("OB", "M", "KB", cap=1)]
+    return {"nodes": nodes, "edges": edges, "until": until, "family": "nonblocking_fleet",
+            "tag": "mixed_out(%s first,%d fleet,wc%d)" % (first, n_fleet, wc)}
+
+
 def nonblocking_fleet(tier):
     """non-blocking machine with several workers finishing together in front of small fleets / buffers"""
-    out = []
+    out = [mixed_out("buf", 1), mixed_out("fleet", 2), mixed_out("buf", 2, wc=3)]
+    # non-blocking source with an explicit policy in front of a fleet whose vehicles are away for a while
+    for pol in (0, "FIRST_AVAILABLE"):
+        out.append({"nodes": [src("S", n=9, blocking=False, iat=[1, 0.5], pol=pol), sink("K")],
+                    "edges": [edge("fleet", "F", "S", "K", cap=3, delay=2, transit=1.5)], "until": 14, "family": "nonblocking_fleet",
+                    "tag": "nb_source_fleet(%s)" % _p(pol)})
     for pol in ("ROUND_ROBIN", 0, "FIRST_AVAILABLE", ("call",)):
         for fcap, wc in ((1, 2), (2, 3)):
             for ek in ("fleet", "buffer"):
